@@ -10,3 +10,6 @@ def run(c):
     obl_phonetic.obl_phonetic_glue(c, 2 if c.tier == "quick" else 3, budget_s=900)
     import obl_fixed
     obl_fixed.obl_session_fixed(c, 2, 1, 1, budget_s=900) if c.tier == "quick" else obl_fixed.obl_session_fixed(c, 3, 2, 2, budget_s=2400)
+    # a list shown after an option change on a warm object is as self-consistent as any other: non-empty, preselection inside it
+    import obl_assembly as A
+    A.obl_reconfig(c, A.conv_table_for([]), thorough=(c.tier == "thorough"), budget_s=900)
